@@ -18,8 +18,8 @@
 (*            observed in the history process (raw), the digest a FRESH    *)
 (*            process gives for the same call (fresh) and the digest       *)
 (*            composed from fresh single-page calls with caching on (pure) *)
-(*            - each also in masked form (m*), where the components that   *)
-(*            are memory addresses under the deviations in Dev are blanked *)
+(*            - each also in masked form (mraw ..), where the components   *)
+(*            that are memory addresses under Dev are blanked             *)
 (*                                                                         *)
 (* SharedTablesImmutable   a table of class "immutable" is unchanged       *)
 (* CachesAppendOnly        in an "append" table entries present before the *)
